@@ -151,6 +151,19 @@ CLAIMED = {
         note="Trusted: Coq kernel + Reals axioms; translators; that contour following is deterministic in its inputs is what the pair comparison monitors.  The radial grid line through "
              "an X-point is compared at 5e-4 m (each region starts slightly off the X-point and the join takes the upper region's values: documented in fillRZ).",
         technique="Coq proofs on translated formulas and generated finite tables + pairwise grid oracle", design="6/C16"),
+    "C10": dict(
+        text="Coq theorems over R (Coquelicot) about closed forms REGENERATED by path-directed symbolic execution of getSqrtPoloidalDistanceFunc (all branches / pieces), "
+             "getMonotonicPoloidalDistanceFunc (cubic and logarithmic branch) and getLinearPoloidalDistanceFunc, for ALL lengths, point counts, N_norm and end parameters: s(0)=0, s(N)=L "
+             "(logarithmic branch: misses L by exactly the brentq residual); requested end gradients per normalised index (sqrt form: s = 2a sqrt(iN) + part with gradient b); the monotonic forms "
+             "have a positive gradient on all of [0,N] in the case the code selects them for; the continuations into the boundary guard cells join with equal value, gradient AND curvature and "
+             "are strictly increasing; f(L, kN, kN_norm, k i) = f(L, N, N_norm, i) (every coarse face is a face of the refined grid); combineSfuncs' normalised weights form a convex "
+             "combination, exact where the blended functions agree; a list passing the distance guard is strictly increasing.  Oracles: the real constructors on a real EquilibriumRegion with "
+             "random parameters over all region kinds (end values, guard-cell continuation, end gradients, doubled resolution, translation validation at 1e-11 L), _checkMonotonic on crafted "
+             "functions; corpus grids: poloidal order, radial segments share the separatrix contour, end points under redistribution, ny doubling.",
+        note="Trusted: Coq kernel + Reals/Coquelicot axioms; translator translate/spacing.py (validated each run); brentq (contract); interior monotonicity of the sqrt form is NOT a theorem "
+             "(false for some parameters) and is left to the run-time guards, whose call sites are fingerprinted and which are exercised on the real object; getSfuncFixedPerpSpacing's "
+             "interpolation s_of_sperp is not modelled (covered by the regrid / corpus oracles).",
+        technique="Coq proof (Coquelicot) on translated closed forms + differential oracle on the real constructors + grid oracle", design="6/C10"),
 }
 
 PENDING = ["C01", "C03", "C04", "C05", "C06", "C07", "C08", "C09", "C10", "C11", "C12", "C13", "C14", "C15", "C16", "C17", "C18", "C19", "C20"]
